@@ -186,6 +186,21 @@ pub fn run(tier: Tier) -> i32 {
             long_vals.push(v);
         }
     }
+    // multi-octet characters at every offset of values a little longer than typical scan
+    // windows (8, 16, 32, 64 octets): valid text stays text wherever a character straddles a boundary
+    for pre in 0..=70usize {
+        for ch in ["é", "€", "𐍈"] {
+            for post in [0usize, 1, 5] {
+                let mut v = vec![b'a'; pre];
+                v.extend_from_slice(ch.as_bytes());
+                v.extend(std::iter::repeat(b'b').take(post));
+                long_vals.push(v.clone());
+                // and the same with the character cut short (invalid)
+                v.truncate(pre + ch.len() - 1);
+                long_vals.push(v);
+            }
+        }
+    }
     let shorts = values();
     let nlv = long_vals.len() as u64;
     par_for(nlv, |i| {
@@ -200,7 +215,7 @@ pub fn run(tier: Tier) -> i32 {
     let c = cov(vec![
         ("evaluations", json!(ev)),
         ("distinct_nontrivial", json!(mixed.load(Ordering::Relaxed))),
-        ("rule", json!("every entry with 0-2 attributes (and a stride subset with 3) whose value lists are all sequences of length 0..=3 over {\"\", a, é, ff, c3, 61 80}, DN in {\"\", cn=é}; single-attribute entries additionally in 4 length forms; every value list under 7 attribute descriptions with options / OID / upper case (alone and between two other attributes); values of 127..70001 octets around every length-form boundary, valid and invalid UTF-8, alone and next to every short value; distinct by construction; non-trivial = at least one attribute mixes valid and invalid UTF-8 values")),
+        ("rule", json!("every entry with 0-2 attributes (and a stride subset with 3) whose value lists are all sequences of length 0..=3 over {\"\", a, é, ff, c3, 61 80}, DN in {\"\", cn=é}; single-attribute entries additionally in 4 length forms; every value list under 7 attribute descriptions with options / OID / upper case (alone and between two other attributes); values of 127..70001 octets around every length-form boundary, 2-/3-/4-octet characters (whole and cut short) at every offset 0..=70, valid and invalid UTF-8, alone and next to every short value; distinct by construction; non-trivial = at least one attribute mixes valid and invalid UTF-8 values")),
         ("value_lists", json!(nl)),
         ("samples", json!([ber::hex(&ber::encode(&entry_tlv("cn=é", &[("cn".into(), vec![vec![0xff], b"a".to_vec()])])))])),
         ("exhaustive", json!(true)),
